@@ -6,14 +6,15 @@
        pages of (search objs q, following the cursor) glued together
        = ref_search objs q      (filter by availability and all filters,
                                  sort by (primary attribute, ID), attributes)
-   What is proved: the refutation witness; the ID-ordered listing part
-   (C03_idlist_page_partial); integer index entries = in-range decimals.
+   What is proved: the refutation witness; the ID-ordered listing part: one page
+   (C03_idlist_page_partial) and the chain of pages obtained by following the
+   cursor (C03_idlist_chain_partial); integer index entries = in-range decimals.
    Early-termination soundness of the primary-attribute scans (EQ / PREFIX /
    numeric) and the equivalence of the handler's per-object predicate with
    `sat_all` are covered by the correspondence check only. *)
 From Coq Require Import List NArith ZArith Bool Arith.
 Import ListNotations.
-From NV Require Import Gen.S256Consts Gen.SearchConsts S256.S256 Search.Search Search.SearchProofs.
+From NV Require Import Gen.S256Consts Gen.SearchConsts S256.S256 Search.Search Search.SearchProofs Search.ChainProofs Search.SatProofs.
 Local Open Scope N_scope.
 
 (* the full statement fails: two filters on the primary attribute, [N<=20, N>=10]
@@ -41,6 +42,46 @@ Theorem C03_idlist_page_partial : forall cd ofs count ip l,
   (h_more st = true -> h_last st = last (map e_tail (firstn count ms)) []).
 Proof. exact idlist_page. Qed.
 
+(* the chain for ID-ordered listing: searchTx called again and again with the
+   cursor it returned (Seek(cursor), skip the key equal to it, run the handler)
+   over ANY strictly increasing key list, with any positive page size:
+   the pages glued together are exactly the entries passing the handler's
+   per-object check that are available, in key order, each once; every page but
+   the last is full; the chain stops (the last page carries no cursor).
+   Partial: the per-object check is the handler's (`ematch`), not yet `sat_all`;
+   the cursor check of PreprocessSearchQuery (length = 32) is not part of it;
+   one page size for the whole chain. *)
+Theorem C03_idlist_chain_partial : forall cd ofs count ip fuel l,
+  tsorted l -> Forall (eclean cd ofs) l -> (0 < count)%nat ->
+  (length (List.filter (ematch cd ofs) l) < fuel)%nat ->
+  let ps := pages cd ofs count ip fuel l in
+  concat ps = map id_item (List.filter (ematch cd ofs) l) /\
+  ps <> [] /\
+  Forall (fun p => length p = count) (removelast ps) /\
+  (length (last ps []) <= count)%nat.
+Proof. exact idlist_chain. Qed.
+
+(* the handler's per-object check in ID-iteration mode is the reference predicate:
+   available and every filter satisfied (`sat_all`, each filter evaluated directly
+   on the attribute values).  Partial: queries without numeric matchers
+   (`wrap fs` is what PreprocessSearchQuery passes on for them) and without
+   NOT_PRESENT on a header field (those are answered "unreachable"). *)
+Theorem C03_handler_is_sat_partial : forall cd fs e,
+  forallb plain_filter fs = true -> existsb blind_filter fs = false ->
+  ematch cd (wrap fs) e = o_avail (e_obj e) && sat_all cd fs (e_obj e).
+Proof. exact ematch_sat_plain. Qed.
+
+(* both together: for string-matcher queries listed in ID order, the pages obtained by
+   following the cursor are exactly the available entries satisfying all filters *)
+Theorem C03_listing_chain_sat_partial : forall cd fs count ip fuel l,
+  forallb plain_filter fs = true -> existsb blind_filter fs = false ->
+  tsorted l -> Forall (eclean cd (wrap fs)) l -> (0 < count)%nat ->
+  (length l < fuel)%nat ->
+  let ps := pages cd (wrap fs) count ip fuel l in
+  concat ps = map id_item (List.filter (fun e => o_avail (e_obj e) && sat_all cd fs (e_obj e)) l) /\
+  ps <> [] /\ Forall (fun p => length p = count) (removelast ps) /\ (length (last ps []) <= count)%nat.
+Proof. exact listing_chain_sat. Qed.
+
 (* "a value counts as an integer only if it is an optionally signed decimal
    number" (in range): entries of the integer index *)
 Theorem C03_int_iff_decimal : forall attr o e,
@@ -60,6 +101,29 @@ Example C03_example_listing :
   search id_codecs wobjs [f_ge10] [] (Some (mk_oid 3)) 2 = R_Page [Item (mk_oid 4) []] None.
 Proof. vm_compute. split; reflexivity. Qed.
 
+(* non-vacuity of the chain: the witness objects, filter N >= 10, page size 1: three pages of one item *)
+Example C03_example_chain :
+  let l := index_of K_ID [] wobjs in
+  let ofs := [OFilter f_ge10 false []] in
+  tsorted l /\ Forall (eclean id_codecs ofs) l /\
+  pages id_codecs ofs 1 true 5 l = [[Item (mk_oid 2) []]; [Item (mk_oid 3) []]; [Item (mk_oid 4) []]].
+Proof.
+  cbn zeta. split; [|split].
+  - vm_compute. repeat split; repeat constructor.
+  - repeat constructor; vm_compute; discriminate.
+  - vm_compute. reflexivity.
+Qed.
+
+(* non-vacuity of the predicate theorem: a string query over the witness objects *)
+Example C03_example_sat :
+  let fs := [Filter key_N M_PREFIX [49]; Filter key_phy M_UNSPEC []] in
+  forallb plain_filter fs = true /\ existsb blind_filter fs = false /\
+  map (fun o => sat_all id_codecs fs o) wobjs = [false; true; true; false].
+Proof. vm_compute. repeat split. Qed.
+
 Print Assumptions C03_page_refuted.
 Print Assumptions C03_idlist_page_partial.
+Print Assumptions C03_idlist_chain_partial.
+Print Assumptions C03_handler_is_sat_partial.
+Print Assumptions C03_listing_chain_sat_partial.
 Print Assumptions C03_int_iff_decimal.
